@@ -364,7 +364,12 @@ fn classify_output(r: &Result<polytune::garble_lang::literal::Literal, OutputErr
         Err(OutputError::RequestRunError { .. }) => ("runerr".into(), -1),
         Err(OutputError::SendConstsError { .. }) => ("constserr".into(), -1),
         Err(OutputError::CompileError(_)) | Err(OutputError::CompilePanic) => ("compileerr".into(), -1),
-        Err(_) => ("othererr".into(), -1),
+        Err(e) => {
+            if std::env::var("PT_LOUD").is_ok() {
+                eprintln!("output error: {e:?}");
+            }
+            ("othererr".into(), -1)
+        }
     }
 }
 
@@ -476,6 +481,21 @@ pub fn program_text(kind: &str, n: usize, consts: &[bool], typed: bool) -> Strin
         }
     }
     match kind {
+        // "M": the sum plus the low six bits of a chain t := t * (x_q + 1) mod 251 over u16 (16 rounds, cycling through
+        // the parties): multiplications and divisions, several thousand AND gates, no overflow for inputs below 30 --
+        // the garbled gates travel in the maximal number of chunks
+        "M" => {
+            let mut body = String::from("let t = 1u16; ");
+            for r in 0..16 {
+                body += &format!("let t = (t * ((x{} as u16) + 1u16)) % 251u16; ", r % n);
+            }
+            s += &format!(
+                "pub fn main({}) -> u8 {{ {}{} + ((t % 64u16) as u8) }}\n",
+                args.join(", "),
+                body,
+                terms.join(op)
+            )
+        }
         "An" => s += &format!("pub fn main({}) -> u8 {{ x0 //\n    + {}\n}}\n", args.join(", "), terms[1..].join(op)),
         "Ac" => s += &format!("pub fn main({}) -> u8 {{ x0 //    + {}\n}}\n", args.join(", "), terms[1..].join(op)),
         _ => s += &format!("pub fn main({}) -> u8 {{ {} }}\n", args.join(", "), terms.join(op)),
